@@ -15,8 +15,8 @@ LONG, SHORT = 9, 1
 HEAP = "2g"
 
 DEVS = (("dev_keepself", "C22_ProvidersEligible"), ("dev_keepexpired", "C22_ProvidersEligible"), ("dev_blockassign", "C22_EvenShare"))
-REACH = ("ZeroCandidates", "MoreProvidersThanShards", "ThresholdAboveCandidates", "ExpiredAndSelfPresent", "SampleCaps",
-         "SelfUsesSlot", "UnevenShare", "EdgeContact")
+REACH = ("ZeroCandidates", "MoreProvidersThanShards", "ThresholdAboveCandidates", "ExpiredAndSelfPresent")
+REACH_MORE = ("SampleCaps", "SelfUsesSlot", "UnevenShare", "EdgeContact")      # thorough tier only
 
 
 def mc_retry(*a, **kw):
@@ -31,7 +31,7 @@ def mc_retry(*a, **kw):
 def model_check(chk, thorough):
     """returns the TLC case histories of the two dumped models"""
     # deviations must violate the contract in the model; corner cases must be reachable (vacuity guards)
-    jobs = [("MC_Swarm_%s.cfg" % c, inv) for c, inv in DEVS] + [("MC_Swarm_reach_%s.cfg" % n.lower(), "Reach_" + n) for n in REACH]
+    jobs = [("MC_Swarm_%s.cfg" % c, inv) for c, inv in DEVS] + [("MC_Swarm_reach_%s.cfg" % n.lower(), "Reach_" + n) for n in REACH + (REACH_MORE if thorough else ())]
     ex = concurrent.futures.ThreadPoolExecutor(max_workers=4)
     futs = [ex.submit(mc_retry, "Swarm", cfg, expect_violation=inv, workers=1, timeout=300, heap="1g") for cfg, inv in jobs]
     r1, h1 = vlib.dump_hists("Swarm", "MC_Swarm_formula.cfg", workers=8, timeout=600, heap=HEAP)
@@ -63,36 +63,52 @@ def table_of(nl, ns, sm, near):
     return body if sm == "none" else me + body if sm == "near" else body + me
 
 
-def hist_to_script(h, k):
-    """one TLC history (table [adv]* plan) -> script lines; None when it holds no plan"""
+def group_cases(hists):
+    """TLC histories (table [adv]* plan) grouped by their prefix (same table, same clock): {prefix-json: [plan actions]}"""
+    groups = {}
+    for h in hists:
+        if h[-1]["op"] != "plan":
+            continue
+        groups.setdefault(json.dumps(h[:-1], sort_keys=True), []).append(h[-1])
+    for g in groups.values():
+        g.sort(key=lambda a: (a["s"], a["thr"], a["tg"], a["mn"]))
+    return groups
+
+
+def group_to_scripts(prefix, plans, k, pack):
+    """one table/clock prefix + its TLC plan cases -> behaviours of <= pack plans each.  The first plan of a behaviour takes
+    target/min from the Config the coordinator was constructed with, the others through the live Config reference."""
+    h = json.loads(prefix)
     t = h[0]
-    plans = [a for a in h if a["op"] == "plan"]
-    if not plans:
-        return None
-    p = plans[0]
     tab = table_of(t["nl"], t["ns"], t["sm"], t["near"])
     selfnum = next((i for i, c in enumerate(tab) if c[1]), 250)
-    via_cfg = k % 2 == 1      # half of the cases set target/min through the live Config reference
-    lines = ["reset self=%d tself=%s sample=%d target=%d minp=%d seed=%d base=%d" % (
-        selfnum, "far" if k % 3 else "base", t["sample"], 1 if via_cfg else p["tg"], 4 if via_cfg else p["mn"], k % 9973 + 1, k % 5 + 1)]
-    for i, (exp, _me) in enumerate(tab):
-        lines.append("contact id=%d exp=%d" % (i, exp * TICK_MS))
-        if t["order"] == "busy":
-            rank = i + 1
-            lines.append("load id=%d au=%d pu=0 ad=0 pd=0 sd=0 le=0 rep=%d choked=0" % (i, rank % 3, 10 * (rank % 2)))
-    for a in h[1:]:
-        if a["op"] == "adv":
-            lines.append("adv ms=%d" % TICK_MS)
-        elif a["op"] == "plan":
-            if via_cfg:
+    out = []
+    for j in range(0, len(plans), pack):
+        part = plans[j:j + pack]
+        k += 1
+        lines = ["reset self=%d tself=%s sample=%d target=%d minp=%d seed=%d base=%d" % (
+            selfnum, "far" if k % 3 else "base", t["sample"], part[0]["tg"], part[0]["mn"], k % 9973 + 1, k % 5 + 1)]
+        for i, (exp, _me) in enumerate(tab):
+            lines.append("contact id=%d exp=%d" % (i, exp * TICK_MS))
+            if t["order"] == "busy":
+                rank = i + 1
+                lines.append("load id=%d au=%d pu=0 ad=0 pd=0 sd=0 le=0 rep=%d choked=0" % (i, rank % 3, 10 * (rank % 2)))
+        for a in h[1:]:
+            if a["op"] == "adv":
+                lines.append("adv ms=%d" % TICK_MS)
+        for n, a in enumerate(part):
+            if n:
                 lines.append("cfg target=%d minp=%d" % (a["tg"], a["mn"]))
             lines.append("plan shards=%d thr=%d" % (a["s"], a["thr"]))
-    return lines
+        out.append(lines)
+    return out
 
 
 def extend(lines, rng):
     """transition cover: keep going after the TLC case (time passes, sweep, refresh, other manifests / chunk ids)"""
-    out = list(lines)
+    plan_at = [i for i, ln in enumerate(lines) if ln.startswith("plan ")]
+    keep = rng.choice(plan_at[:6])                      # one of the TLC cases of this behaviour, then on from there
+    out = [ln for i, ln in enumerate(lines[:keep + 1]) if i >= keep - 1 or not (ln.startswith("plan ") or ln.startswith("cfg "))]
     out.append("adv ms=%d" % rng.choice([1, 999, 1000, 1001, 8000]))
     if rng.random() < 0.5:
         out.append("sweep")
@@ -239,58 +255,73 @@ def classify(chk, events):
                 chk.nontrivial(key)
 
 
-def run_and_validate(chk, behaviours, label, max_lines=250000):
-    """replay scripts on the real code, validate the recorded trace with TLC (in pieces of <= max_lines script lines)"""
-    if not behaviours:
+def run_and_validate(chk, sets, max_lines=300000):
+    """sets = [(label, [behaviour script lines])]: replay everything on the real code (one driver run and one TLC trace
+    validation per piece of <= max_lines script lines), attribute the results to the labels"""
+    flat = [(label, b) for label, bs in sets for b in bs]
+    if not flat:
         return
     pieces, cur, n = [], [], 0
-    for b in behaviours:
-        if cur and n + len(b) > max_lines:
+    for item in flat:
+        if cur and n + len(item[1]) > max_lines:
             pieces.append(cur)
             cur, n = [], 0
-        cur.append(b)
-        n += len(b)
+        cur.append(item)
+        n += len(item[1])
     pieces.append(cur)
-    for k, piece in enumerate(pieces):
-        _run_piece(chk, piece, label if len(pieces) == 1 else "%s-%d" % (label, k + 1))
-
-
-def _run_piece(chk, behaviours, label):
     b = vlib.build("swarm")["swarm"]
-    wd = vlib.workdir("swarm-%s-%s" % (chk.pid, label))
+    for k, piece in enumerate(pieces):
+        _run_piece(chk, b, piece, "piece%d" % (k + 1))
+
+
+def _run_piece(chk, binary, piece, name):
+    wd = vlib.workdir("swarm-%s-%s" % (chk.pid, name))
     script = os.path.join(wd, "script.txt")
     trace = os.path.join(wd, "trace.ndjson")
     with open(script, "w") as f:
-        for lines in behaviours:
+        for _label, lines in piece:
             f.write("\n".join(lines) + "\n")
-    vlib.sh([b, script, trace], timeout=600)
+    vlib.sh([binary, script, trace], timeout=600)
     events = vlib.read_ndjson(trace)
     res = vlib.validate("SwarmTrace", trace, heap="4g" if len(events) > 150000 else HEAP)
-    nb = sum(1 for e in events if e["op"] == "reset")
-    if nb != len(behaviours):
-        raise vlib.MachineryError("swarm driver: %d behaviours in, %d reset events out (%s)" % (len(behaviours), nb, label))
-    nplans = sum(1 for e in events if e["op"] == "plan")
-    if nplans == 0 or res["stats"]["checked"] == 0:
-        raise vlib.MachineryError("swarm trace without any judged plan (%s)" % label)
-    chk.add_traces(nb, len(events), res, label)
+    behs = vlib.behaviours_of(events)
+    if len(behs) != len(piece):
+        raise vlib.MachineryError("swarm driver: %d behaviours in, %d reset events out (%s)" % (len(piece), len(behs), name))
+    if res["stats"]["checked"] == 0:
+        raise vlib.MachineryError("swarm trace without any judged plan (%s)" % name)
+    # per-label accounting
+    per = {}
+    for (label, _lines), (_start, evs) in zip(piece, behs):
+        d = per.setdefault(label, {"behaviours": 0, "events": 0, "plans": 0, "nonempty": 0, "sample": None})
+        d["behaviours"] += 1
+        d["events"] += len(evs)
+        for e in evs:
+            if e["op"] == "plan":
+                d["plans"] += 1
+                if e["plan"]:
+                    d["nonempty"] += 1
+                    if d["sample"] is None and d["plans"] > 3:
+                        d["sample"] = e
+    for label, d in per.items():
+        chk.add_traces(d["behaviours"], d["events"], {"stats": {"plans": d["plans"], "nonempty": d["nonempty"]}}, label)
+        if d["sample"]:
+            chk.sample({"source": label, "plan_event": d["sample"]})
+        log("[trace] %s/%s: %d behaviours, %d events, %d plans (%d non-empty)" % (name, label, d["behaviours"], d["events"], d["plans"], d["nonempty"]))
     classify(chk, events)
-    plans = [e for e in events if e["op"] == "plan" and e["plan"]]
-    if plans:
-        chk.sample({"source": label, "plan_event": plans[len(plans) // 2]})
-    report(chk, res, events, behaviours, label)
-    log("[trace] %s: %d behaviours, %d events, %d plans judged (%d non-empty, %d failing), %d clause failures kept" % (
-        label, nb, len(events), res["stats"]["checked"], res["stats"]["nonempty"], res["stats"]["failed"], len(res.get("viol", []))))
+    report(chk, res, behs, piece)
+    log("[trace] %s: %d events validated by TLC in %.1fs: %d plans judged, %d failing, %d clause failures kept" % (
+        name, len(events), res["wall"], res["stats"]["checked"], res["stats"]["failed"], len(res.get("viol", []))))
 
 
-def report(chk, res, events, behaviours, label):
+def report(chk, res, behs, piece):
     """violations -> reports; the replay file is the SCRIPT of the failing behaviour (runnable by the driver / --replay),
     followed by the recorded events as comments"""
-    behs = vlib.behaviours_of(events)
     for v in res.get("viol", []):
         l = v["l"]
-        k = max(i for i, b in enumerate(behs) if b[0] <= l)
+        k = max(i for i, bh in enumerate(behs) if bh[0] <= l)
+        label, script = piece[k]
         ev = behs[k][1][: l - behs[k][0] + 1]
-        lines = list(behaviours[k]) + ["# failing plan event (trace line %d): %s" % (l, json.dumps(v.get("detail")))]
+        lines = list(script) + ["# failing plan event (trace line %d): %s" % (l, json.dumps(v.get("detail")))]
         lines += ["# " + json.dumps(e) for e in ev]
         clauses = v["clause"] if isinstance(v["clause"], list) else [v["clause"]]
         for cl in clauses:
@@ -301,32 +332,32 @@ def replay(chk, path):
     lines = [x.rstrip("\n") for x in open(path) if x.strip() and not x.startswith("#")]
     if not lines:
         raise vlib.MachineryError("replay file holds no script: " + path)
-    run_and_validate(chk, [lines], "replay")
+    run_and_validate(chk, [("replay", [lines])])
 
 
 def run(chk):
     thorough = chk.tier == "thorough"
     rng = chk.rng
     h1, h2 = model_check(chk, thorough)
-    cases = []
-    h1.sort(key=lambda h: json.dumps(h, sort_keys=True))     # TLC's dump order depends on worker scheduling
-    h2.sort(key=lambda h: json.dumps(h, sort_keys=True))
-    for k, h in enumerate(h1 + h2):
-        s = hist_to_script(h, k)
-        if s:
-            cases.append(s)
-    log("[gen] %d TLC cases with a plan (%d formula sweep, %d table layouts incl. no-plan states)" % (len(cases), len(h1), len(h2)))
-    if len(cases) < 1000:
-        raise vlib.MachineryError("TLC case export too small: %d" % len(cases))
-    # the formula sweep is replayed completely; the layouts are sampled
-    nform = sum(1 for h in h1 if any(a["op"] == "plan" for a in h))
-    cases = cases[:nform] + rng.sample(cases[nform:], min(len(cases) - nform, 6000 if not thorough else 60000))
-    run_and_validate(chk, cases, "tlc-cases")
-    ext = [extend(c, rng) for c in rng.sample(cases, min(len(cases), 3000 if not thorough else 15000))]
-    run_and_validate(chk, ext, "tlc-cases-extended")
-    n = 2500 if not thorough else 20000
-    run_and_validate(chk, random_store(rng, n), "random-store")
-    run_and_validate(chk, random_node(rng, 300 if not thorough else 4000), "random-node")
+    g1, g2 = group_cases(h1), group_cases(h2)
+    n1, n2 = sum(map(len, g1.values())), sum(map(len, g2.values()))
+    log("[gen] TLC cases with a plan: %d (formula sweep, %d tables) + %d (layouts, %d table/clock prefixes)" % (n1, len(g1), n2, len(g2)))
+    if n1 < 10000 or n2 < 10000:
+        raise vlib.MachineryError("TLC case export too small: %d + %d" % (n1, n2))
+    # the formula sweep is replayed completely; of the layouts a sample of table/clock prefixes with all their plans
+    formula, layouts = [], []
+    for k, pre in enumerate(sorted(g1)):
+        formula += group_to_scripts(pre, g1[pre], 100 * k, 24)
+    pres = sorted(g2)                                           # TLC's dump order depends on worker scheduling
+    if not thorough:
+        pres = rng.sample(pres, min(len(pres), 260))
+    for k, pre in enumerate(pres):
+        layouts += group_to_scripts(pre, g2[pre], 100 * k + 7, 18)
+    pool = formula + layouts
+    ext = [extend(c, rng) for c in rng.sample(pool, min(len(pool), 1200 if not thorough else 12000))]
+    run_and_validate(chk, [("tlc-cases-formula", formula), ("tlc-cases-layouts", layouts), ("tlc-cases-extended", ext),
+                           ("random-store", random_store(rng, 2000 if not thorough else 20000)),
+                           ("random-node", random_node(rng, 300 if not thorough else 4000))])
     chk.cov["exhaustive"] = False
     chk.assumptions += [
         "\"candidates\" read as: live non-self contacts of the routing table, capped by swarm_candidate_sample when smaller; "
